@@ -171,6 +171,14 @@ def run_case(desc, ctx):
         ok, m = ctx.call("build", build.volume, V, C, monitor="tree")
         E = RefVolume(len(V), C).edges
     n = len(V)
+    V = np.array(V, dtype=float)
+    if rng.random() < 0.3:
+        # history: measured earlier (persistent edge lengths), then deformed in place: 'length' weights are those of the current geometry
+        ctx.cls("history:measured_then_deformed")
+        ctx.call("attributes.edge_length", M.attributes.edge_length, m, monitor="tree")
+        V = V * np.array([rng.choice([0.2, 1.0, 4.0]) for _ in range(3)])
+        for i in range(n):
+            m.vertices[i] = M.Vec(V[i].copy())
     ctx.cls("mesh:" + (("polyline:" + cls) if g == "polyline" else cls))
     edges = build.edges_list(m)
     eid = {e: i for i, e in enumerate(edges)}
